@@ -3,7 +3,7 @@
    Filename element "../out/x"), and runs showing that the hypotheses of the
    confinement theorems are satisfiable. *)
 From Coq Require Import List NArith Bool.
-From DS Require Import Base.Bytes Base.FS Base.GoPath Model.FSLinks Model.ArchiveNames Model.Untar.
+From DS Require Import Base.Bytes Base.FS Base.GoPath Model.FSLinks Model.ArchiveNames Model.Untar Proofs.FSLinksProofs.
 Import ListNotations.
 Local Open Scope N_scope.
 
@@ -93,7 +93,7 @@ Lemma benign_run :
   stat (w_root ++ [w_s]) (w_fs (fst (untar Fixed w_opts (rootstr w_root) w_benign wit_fs)))
     = Some (EFile (mkMeta 420 0 0 1000 []) [6]) /\
   stat w_victim (w_fs (fst (untar Fixed w_opts (rootstr w_root) w_benign wit_fs))) = stat w_victim wit_fs /\
-  length (w_touched (fst (untar Fixed w_opts (rootstr w_root) w_benign wit_fs))) = 18%nat.
+  length (w_touched (fst (untar Fixed w_opts (rootstr w_root) w_benign wit_fs))) = 19%nat.
 Proof. vm_compute. repeat split. Qed.
 
 (* link "s" -> ../out, then a DIRECTORY named "s" with a file below: CreateDir's Lstat sees
@@ -115,10 +115,10 @@ Lemma pre_existing_link_stops :
   stat w_victim (w_fs (fst (untar Fixed w_opts (rootstr w_root) w_into_pre wit_fs_pre))) = stat w_victim wit_fs_pre.
 Proof. vm_compute. split; reflexivity. Qed.
 
-(* the first entry may be a regular file: it replaces the destination itself, later entries fail *)
+(* the first entry may be a regular file: it replaces the destination itself, the decoder accepts nothing after it *)
 Definition w_file_root : list elem := [regE; EPayload [1]; EFilename w_x; regE; EPayload [2]].
 Lemma file_root_run :
-  snd (untar Fixed w_opts (rootstr w_root) w_file_root wit_fs) = WriteError ENOTDIR /\
+  snd (untar Fixed w_opts (rootstr w_root) w_file_root wit_fs) = DecodeError /\
   stat w_root (w_fs (fst (untar Fixed w_opts (rootstr w_root) w_file_root wit_fs))) = Some (EFile (mkMeta 420 0 0 1000 []) [1]) /\
   stat w_victim (w_fs (fst (untar Fixed w_opts (rootstr w_root) w_file_root wit_fs))) = stat w_victim wit_fs.
 Proof. vm_compute. repeat split. Qed.
@@ -144,4 +144,45 @@ Lemma untar_dotdot_refuted :
 Proof.
   exists w_dotdot, wit_fs, w_root, w_victim.
   split; [discriminate|]. split; [exact w_root_real|]. exact dotdot_escapes.
+Qed.
+
+(* ---------- the destination does not exist yet ---------- *)
+
+(* /sb/out/x, no /sb/dest *)
+Definition wit_fs_absent : node :=
+  Dir meta0 [(w_sb, Dir meta0 [(w_out, Dir meta0 [(w_x, File meta0 [1; 2; 3])])])].
+
+(* the root entry is a link -> "out" (created AT /sb/dest), then a file x *)
+Definition w_root_link : list elem := [lnkE; ESymlink w_out; EFilename w_x; regE; EPayload [9]].
+
+Lemma untar_leafroot_refuted :
+  exists (elems : list elem) (fs : node) (root victim : path),
+    root <> [] /\ Forall real_elem root /\ parent_ok root fs /\ not_link_at root fs /\ beneath root victim = false /\
+    snd (untar Fix2 (mkOpts false false) (rootstr root) elems fs) = Done /\
+    stat victim (Untar.w_fs (fst (untar Fix2 (mkOpts false false) (rootstr root) elems fs))) <> stat victim fs.
+Proof.
+  exists w_root_link, wit_fs_absent, w_root, w_victim.
+  split; [discriminate|]. split; [exact w_root_real|].
+  split; [do 2 eexists; vm_compute; reflexivity|].
+  split; [intros m t; vm_compute; discriminate|].
+  split; [vm_compute; reflexivity|]. split; [vm_compute; reflexivity|]. vm_compute. discriminate.
+Qed.
+
+(* the decoder as it is now stops after the root link: /sb/dest is the link, nothing else happened *)
+Lemma root_link_now :
+  snd (untar Fixed w_opts (rootstr w_root) w_root_link wit_fs_absent) = DecodeError /\
+  stat w_root (Untar.w_fs (fst (untar Fixed w_opts (rootstr w_root) w_root_link wit_fs_absent)))
+    = Some (ELink (mkMeta 511 0 0 1000 []) w_out) /\
+  stat w_victim (Untar.w_fs (fst (untar Fixed w_opts (rootstr w_root) w_root_link wit_fs_absent))) = stat w_victim wit_fs_absent.
+Proof. vm_compute. repeat split. Qed.
+
+(* an absent destination and a directory as the root entry: the destination is created *)
+Lemma absent_dest_created :
+  parent_ok w_root wit_fs_absent /\ not_link_at w_root wit_fs_absent /\ ~ is_dir_at w_root wit_fs_absent /\
+  snd (untar Fixed w_opts (rootstr w_root) w_benign wit_fs_absent) = Done /\
+  is_dir_at w_root (Untar.w_fs (fst (untar Fixed w_opts (rootstr w_root) w_benign wit_fs_absent))).
+Proof.
+  split; [do 2 eexists; vm_compute; reflexivity|]. split; [intros m t; vm_compute; discriminate|].
+  split; [intros [m [l E]]; vm_compute in E; discriminate|]. split; [vm_compute; reflexivity|].
+  do 2 eexists. vm_compute. reflexivity.
 Qed.
